@@ -195,3 +195,105 @@ def constructor_cases(rng, n):
         cs = rng.choice([None, 'sine', -2, [p[2] for p in pts]])
         out.append(('pairs', {'pairs': pr, 'curves': cs}, documented('pairs', {'pairs': pr, 'curves': cs})))
     return out
+
+
+# --------------------------------------------------------------------------- type-exact reference
+# (used by the falsy-value sweep of the correspondence: explicit 0, 0.0, -0.0, False, '', [] must be
+#  taken as given; only None -- and, for levels / times, an empty or zero value, as documented by the
+#  constructor's comment "can't be empty or zero either" -- selects a default)
+import math
+
+ENV_DEFAULTS = [('levels', None), ('times', None), ('curves', 'lin'), ('release_node', None), ('loop_node', None), ('offset', 0)]
+
+
+def typed(x):
+    if isinstance(x, (list, tuple)):
+        return [typed(i) for i in x]
+    return [type(x).__name__, repr(x)]
+
+
+def reference_args(name, a):
+    """(levels, times, curves, release_node, loop_node, offset) documented for Env.<name>(**a); a is complete"""
+    if name is None:
+        return a['levels'], a['times'], a['curves'], a['release_node'], a['loop_node'], a['offset']
+    if name in ('triangle', 'sine'):
+        d = a['dur'] * 0.5
+        return [0, a['level'], 0], [d, d], ('lin' if name == 'triangle' else 'sine'), None, None, 0
+    if name == 'perc':
+        return [0, a['level'], 0], [a['attack_time'], a['release_time']], a['curve'], None, None, 0
+    if name == 'linen':
+        return [0, a['level'], a['level'], 0], [a['attack_time'], a['sustain_time'], a['release_time']], a['curve'], None, None, 0
+    if name == 'cutoff':
+        k = _shape(a['curve'])[0]
+        return [a['level'], math.pow(10., -100 * .05) if k == 2 else 0], [a['release_time']], a['curve'], 0, None, 0
+    if name == 'asr':
+        return [0, a['sustain_level'], 0], [a['attack_time'], a['release_time']], a['curve'], 1, None, 0
+    if name == 'adsr':
+        p, s, b = a['peak_level'], a['sustain_level'], a['bias']
+        return [0 + b, p + b, p * s + b, 0 + b], [a['attack_time'], a['decay_time'], a['release_time']], a['curve'], 2, None, 0
+    if name == 'dadsr':
+        p, s, b = a['peak_level'], a['sustain_level'], a['bias']
+        return ([0 + b, 0 + b, p + b, p * s + b, 0 + b],
+                [a['delay_time'], a['attack_time'], a['decay_time'], a['release_time']], a['curve'], 3, None, 0)
+    if name == 'step':
+        lv = a['levels'] if a['levels'] else [0, 1]
+        tm = a['times'] if a['times'] else [1, 1]
+        if len(lv) != len(tm):
+            raise ValueError('lengths')
+        r = a['release_level']
+        return [lv[0]] + list(lv), tm, 'step', (None if r is None else r - 1), a['loop_level'], a['offset']
+    if name in ('xyc', 'pairs'):
+        if name == 'pairs':
+            ps, c = a['pairs'], a['curves']
+            if any(len(p) != 2 for p in ps):
+                raise ValueError('pairs')
+            if c is None:
+                cs = ['lin'] * len(ps)
+            elif isinstance(c, (str, float, int)):
+                cs = [c] * len(ps)
+            else:
+                if len(c) != len(ps):
+                    raise ValueError('lengths')
+                cs = list(c)
+            pts = [(p[0], p[1], k) for p, k in zip(ps, cs)]
+        else:
+            if any(len(p) != 3 for p in a['xyc']):
+                raise ValueError('xyc')
+            pts = [tuple(p) for p in a['xyc']]
+        if not pts:
+            raise ValueError('empty')
+        pts = sorted(pts, key=lambda p: p[0])
+        xs = [p[0] for p in pts]
+        return [p[1] for p in pts], [q - p for p, q in zip(xs, xs[1:])], [p[2] for p in pts][:-1], None, None, xs[0]
+    raise KeyError(name)
+
+
+def reference_formats(name, pos, kw):
+    """type-tagged expected EnvGen / IEnvGen arrays (or {'err': ...}) of Env(*pos, **kw) / Env.<name>(**kw)"""
+    defaults = ENV_DEFAULTS if name is None else list(DEFAULTS.get(name, {}).items()) or \
+        ([('xyc', None)] if name == 'xyc' else [('pairs', None), ('curves', None)])
+    a = dict(defaults)
+    for (k, _), v in zip(defaults, pos):
+        a[k] = v
+    a.update(kw)
+    try:
+        levels, times, curves, rel, loop, offset = reference_args(name, a)
+        levels = levels if levels else [0, 1, 0]
+    except ValueError:
+        return {'env': {'err': 'ValueError'}, 'ienv': {'err': 'ValueError'}}
+    except TypeError:
+        return {'env': {'err': 'TypeError'}, 'ienv': {'err': 'TypeError'}}
+    out = {}
+    for key, fn, flat in (('env', lambda: expected_envgen(levels, times, curves, rel, loop),
+                           lambda d: [d['init'], d['n'], d['rel'], d['loop']] + [x for s in d['segs'] for x in s]),
+                          ('ienv', lambda: expected_ienvgen(levels, times, curves, 0 if offset is None else offset),
+                           lambda d: [d['offset'], d['init'], d['n'], d['total']] + [x for s in d['segs'] for x in s])):
+        try:
+            out[key] = typed(flat(fn()))
+        except KeyError:
+            out[key] = {'err': 'ValueError'}
+        except ZeroDivisionError:
+            out[key] = {'err': 'ZeroDivisionError'}
+        except TypeError:
+            out[key] = {'err': 'TypeError'}
+    return out
